@@ -76,6 +76,29 @@ def run(ctx: Ctx) -> None:
     _j_terms(ctx)
 
 
+
+def _names(ro: FuncInfo, repo: Any) -> tuple[str, str]:
+    """(finished flag, result matrix): discovered, not assumed."""
+    flag = "is_finished"
+    for n in ast.walk(ro.node):
+        if isinstance(n, (ast.Assign, ast.AnnAssign)) and isinstance(
+                n.value, ast.Compare) and isinstance(
+                n.value.left, ast.Attribute) and \
+                n.value.left.attr == "status" and repo.const(
+                ro.module, n.value.comparators[0]) == "finished":
+            tg = n.targets[0] if isinstance(n, ast.Assign) else n.target
+            if isinstance(tg, ast.Name):
+                flag = tg.id
+    res = "result"
+    outer = next((s for s in func_body(ro) if isinstance(s, ast.While)),
+                 None)
+    if outer is not None:
+        for r in ast.walk(outer):
+            if isinstance(r, ast.Return) and isinstance(r.value, ast.Name):
+                res = r.value.id
+    return flag, res
+
+
 # ------------------------------------------------------------------ D10.1
 def _retry(ctx: Ctx, ro: FuncInfo) -> None:
     cfg = CFG(ro.node)
@@ -179,6 +202,7 @@ def _is_ok_rule(ctx: Ctx) -> None:
 
 def _rows(ctx: Ctx, ro: FuncInfo) -> None:
     repo = ctx.repo
+    FLAG, RES = _names(ro, repo)
     cfg = CFG(ro.node)
     okc = repo.func(MOD, "_is_ok")
 
@@ -199,7 +223,7 @@ def _rows(ctx: Ctx, ro: FuncInfo) -> None:
     a_ok = cfg.dominated_by(R, is_ok_test)
     # (b) guarded by the finished flag
     flag_tests = [n for n in cfg.nodes if n.kind == "test" and isinstance(
-        n.ast, ast.Name) and n.ast.id == "is_finished"]
+        n.ast, ast.Name) and n.ast.id == FLAG]
     b_ok = any(R in {m for m, lb in t.succ if lb is True} or
                cfg.dominated_by(R, lambda n, t=t: n is t)
                for t in flag_tests)
@@ -209,7 +233,7 @@ def _rows(ctx: Ctx, ro: FuncInfo) -> None:
     for n in ast.walk(outer):
         if isinstance(n, ast.For) and isinstance(
                 n.iter, ast.Subscript) and ast.unparse(
-                n.iter.value) == "result":
+                n.iter.value) == RES:
             row_loop = n
     ctx.need(row_loop is not None, "run_ode: loop over the result rows")
     head = next(n for n in cfg.nodes if n.ast is row_loop and n.kind == "for")
@@ -219,7 +243,7 @@ def _rows(ctx: Ctx, ro: FuncInfo) -> None:
     def clears(n: Node) -> bool:
         a = n.ast
         return n.kind == "stmt" and isinstance(a, ast.Assign) and any(
-            isinstance(t, ast.Name) and t.id == "is_finished"
+            isinstance(t, ast.Name) and t.id == FLAG
             for t in a.targets) and repo.const(ro.module, a.value) is False
     first_body = [m for m, lb in head.succ if lb == "iter"]
     def flag_still_set(a: Node, b: Node, lab: object) -> bool:
@@ -258,7 +282,7 @@ def _rows(ctx: Ctx, ro: FuncInfo) -> None:
         if isinstance(s_, (ast.Assign, ast.AnnAssign)) and \
                 s_.value is not None and isinstance(
                 s_.value, ast.Subscript) and ast.unparse(
-                s_.value.value) == "result" and not isinstance(
+                s_.value.value) == RES and not isinstance(
                 s_.value.slice, (ast.Slice, ast.Tuple)) and repo.const(
                 ro.module, s_.value.slice) == 0:
             tg_ = s_.targets[0] if isinstance(s_, ast.Assign) else s_.target
@@ -273,7 +297,7 @@ def _rows(ctx: Ctx, ro: FuncInfo) -> None:
                 a0 = c.args[0] if c.args else None
                 whole = (isinstance(a0, ast.Name) and a0.id in row_names) \
                     or (isinstance(a0, ast.Subscript) and ast.unparse(
-                        a0.value) == "result" and not isinstance(
+                        a0.value) == RES and not isinstance(
                         a0.slice, (ast.Slice, ast.Tuple)))
                 if not whole:
                     partial.append(ast.unparse(c))
@@ -303,7 +327,7 @@ def _rows(ctx: Ctx, ro: FuncInfo) -> None:
                     return True
         return False
     g1 = behind_true_edge(lambda c: isinstance(c.ast, ast.Name)
-                          and c.ast.id == "is_finished")
+                          and c.ast.id == FLAG)
     g2 = behind_true_edge(lambda c: isinstance(c.ast, ast.Attribute)
                           and c.ast.attr == "is_ok")
     g_ok = g1 and g2
@@ -317,7 +341,7 @@ def _rows(ctx: Ctx, ro: FuncInfo) -> None:
         base = tg.value
         sl = tg.slice
         row0 = isinstance(base, ast.Name) and base.id in row_names
-        if isinstance(base, ast.Name) and base.id == "result" and \
+        if isinstance(base, ast.Name) and base.id == RES and \
                 isinstance(sl, ast.Tuple) and len(sl.elts) == 2 and \
                 repo.const(ro.module, sl.elts[0]) == 0:
             row0, sl = True, sl.elts[1]
@@ -1021,13 +1045,14 @@ def _interpolation(ctx: Ctx, ro: FuncInfo) -> None:
     """Each later row takes its state from an interpolator covering its time;
     the search for it advances and stays inside the list."""
     repo = ctx.repo
+    FLAG, RES = _names(ro, repo)
     cfg = CFG(ro.node)
     outer = next(s for s in func_body(ro) if isinstance(s, ast.While))
     row_loop = None
     for n in ast.walk(outer):
         if isinstance(n, ast.For) and isinstance(
                 n.iter, ast.Subscript) and ast.unparse(
-                n.iter.value) == "result":
+                n.iter.value) == RES:
             row_loop = n
     ctx.need(row_loop is not None, "run_ode: loop over the result rows")
     # the store  row[0:n] = D(t)
@@ -1074,13 +1099,13 @@ def _interpolation(ctx: Ctx, ro: FuncInfo) -> None:
         def clears(n: Node) -> bool:
             a = n.ast
             return n.kind == "stmt" and isinstance(a, ast.Assign) and any(
-                isinstance(x, ast.Name) and x.id == "is_finished"
+                isinstance(x, ast.Name) and x.id == FLAG
                 for x in a.targets) and repo.const(
                 ro.module, a.value) is False
         # paths on which the finished flag was cleared do not reach the
         # store: it sits behind a test of that flag
         flag_tests = [n for n in cfg.nodes if n.kind == "test" and isinstance(
-            n.ast, ast.Name) and n.ast.id == "is_finished" and any(
+            n.ast, ast.Name) and n.ast.id == FLAG and any(
             n.ast is x for x in ast.walk(row_loop))]
         behind_flag = False
         for f in flag_tests:
@@ -1297,7 +1322,7 @@ def _stepping(ctx: Ctx, ro: FuncInfo) -> None:
                     f"the bound tracker is created with ({', '.join(got_)}) "
                     f"for parameters ({', '.join(want_)})")
     # the finished flag
-    flag = "is_finished"
+    flag = _names(ro, repo)[0]
     asg = [n for n in ast.walk(outer) if isinstance(
         n, (ast.Assign, ast.AnnAssign)) and n.value is not None and
         isinstance(n.targets[0] if isinstance(n, ast.Assign) else n.target,
